@@ -227,11 +227,33 @@ Proof.
   rewrite A, B. reflexivity.
 Qed.
 
+(* the literal numpy forms of the source, brought to index form *)
+Lemma mesh_support_idx_all_unfold kv p :
+  mesh_support_idx_all kv p =
+  map (fun se => (nth (fst se) (knots_to_mesh kv) 0%nat, nth (snd se) (knots_to_mesh kv) 0%nat))
+      (combine (seq 0 (numdofs kv p)) (seq (p + 1) (numdofs kv p))).
+Proof.
+  unfold mesh_support_idx_all, np_take2, np_stack2, np_arange_nat.
+  replace (numdofs kv p - 0)%nat with (numdofs kv p) by lia.
+  replace (numdofs kv p + p + 1 - (p + 1))%nat with (numdofs kv p) by lia. reflexivity.
+Qed.
+
+Lemma mesh_span_indices_unfold kv :
+  mesh_span_indices kv =
+  filter (fun i => negb (Nat.eqb (nth (S i) (knots_to_mesh kv) 0%nat) (nth i (knots_to_mesh kv) 0%nat)))
+         (seq 0 (length (knots_to_mesh kv) - 1)).
+Proof.
+  unfold mesh_span_indices, np_where_ne, sl_from1, sl_to_m1.
+  rewrite length_tl, length_removelast, Nat.min_id.
+  apply filter_ext_in. intros i Hi. apply in_seq in Hi.
+  rewrite nth_tl, nth_removelast by lia. reflexivity.
+Qed.
+
 Lemma mesh_support_idx_all_l kv p j : (j < numdofs kv p)%nat ->
   nth j (mesh_support_idx_all kv p) (0%nat, 0%nat) = mesh_support_idx kv p j /\
   length (mesh_support_idx_all kv p) = numdofs kv p.
 Proof.
-  intros Hj. unfold mesh_support_idx_all, mesh_support_idx, support_idx. cbn [fst snd].
+  intros Hj. rewrite mesh_support_idx_all_unfold. unfold mesh_support_idx, support_idx. cbn [fst snd].
   set (k2m := knots_to_mesh kv). set (n := numdofs kv p) in *.
   split.
   - set (f := fun se : nat * nat => (nth (fst se) k2m 0%nat, nth (snd se) k2m 0%nat)).
@@ -246,7 +268,7 @@ Qed.
 Lemma span_indices_In kv i :
   In i (mesh_span_indices kv) <-> ((S i < length kv)%nat /\ kn kv i <> kn kv (S i)).
 Proof.
-  unfold mesh_span_indices. rewrite filter_In, in_seq, k2m_length. split.
+  rewrite mesh_span_indices_unfold. rewrite filter_In, in_seq, k2m_length. split.
   - intros [Hi H]. assert (Hl : (S i < length kv)%nat) by lia. split; [exact Hl|].
     apply negb_true_iff in H. apply Nat.eqb_neq in H. intros E. apply H.
     apply k2m_eq_iff; [exact Hl|lia|]. symmetry. exact E.
@@ -268,7 +290,7 @@ Lemma span_indices_length_l kv : kv_valid kv = true -> kv <> [] ->
 Proof.
   intros Hv Hne. unfold numspans, mesh, np_unique. rewrite sort_id by exact Hv.
   rewrite dedup_length by exact Hne. rewrite <- njumps_filter.
-  unfold mesh_span_indices. rewrite k2m_length.
+  rewrite mesh_span_indices_unfold. rewrite k2m_length.
   replace (S (length (filter (fun i => negb (qeqb (kn kv i) (kn kv (S i)))) (seq 0 (length kv - 1)))) - 1)%nat
     with (length (filter (fun i => negb (qeqb (kn kv i) (kn kv (S i)))) (seq 0 (length kv - 1)))) by lia.
   f_equal. apply filter_ext_in. intros i Hi. apply in_seq in Hi. f_equal.
